@@ -54,6 +54,8 @@ class Executor(ExprMixin, CallMixin, LoopMixin):
 
     # ------------------------------------------------------------------ obligations
     def oblige(self, st, kind, goal, label="", meta=None):
+        if getattr(self, "_suppress_oblige", False):
+            return          # re-evaluation of a comprehension element for another index: obligations were emitted for the generic one
         if goal is True:
             goal = z3.BoolVal(True)      # trivially true after partial evaluation: still counted, discharged by the solver
         if goal is False:
@@ -244,9 +246,37 @@ class Executor(ExprMixin, CallMixin, LoopMixin):
         st.assume(c)
         return [(st, NORMAL)]
 
+    MUTATORS = ("append", "extend", "insert", "pop", "remove", "clear", "sort", "reverse", "update", "setdefault", "popitem", "add", "discard")
+
+    def error_branch(self, body):
+        """(contract.abstract_error_branches) a block that only computes an error message and raises: its last statement is a
+        `raise`, it contains no return / break / continue / yield, stores only to plain local names and calls no in-place mutator
+        on anything but such locals.  It is then abstracted to "raises some Exception, the heap unchanged" (what it calls are
+        functions of formatstring.py on values, whose frame condition is C13) instead of being executed."""
+        if not getattr(self.contract, "abstract_error_branches", False) or not body or not isinstance(body[-1], ast.Raise):
+            return False
+        local = set()
+        for stmt in body:
+            for n in ast.walk(stmt):
+                if isinstance(n, ast.Name) and isinstance(n.ctx, ast.Store):
+                    local.add(n.id)
+        for stmt in body:
+            for n in ast.walk(stmt):
+                if isinstance(n, (ast.Return, ast.Break, ast.Continue, ast.Yield, ast.YieldFrom, ast.Global, ast.Nonlocal, ast.Delete)):
+                    return False
+                if isinstance(n, (ast.Attribute, ast.Subscript)) and isinstance(n.ctx, (ast.Store, ast.Del)):
+                    return False
+                if isinstance(n, ast.Call) and isinstance(n.func, ast.Attribute) and n.func.attr in self.MUTATORS:
+                    if not (isinstance(n.func.value, ast.Name) and n.func.value.id in local):
+                        return False
+        return True
+
     def s_If(self, node, st):
         c = self.truth(self.ev(node.test, st), st)
         if isinstance(c, bool):
+            if c and self.error_branch(node.body):
+                st.trace.append(f"error-branch@{node.lineno}")
+                return [(st, ("raise", "Exception"))]
             return self.exec_block(node.body if c else node.orelse, st)
         outs = []
         for val, body in ((True, node.body), (False, node.orelse)):
@@ -255,6 +285,10 @@ class Executor(ExprMixin, CallMixin, LoopMixin):
                 st2 = st.clone()
                 st2.pc.append(cond)
                 st2.trace.append(f"{'T' if val else 'F'}@{node.lineno}")
+                if body and self.error_branch(body):
+                    st2.trace.append(f"error-branch@{node.lineno}")
+                    outs.append((st2, ("raise", "Exception")))
+                    continue
                 outs += self.exec_block(body, st2)
         return outs
 
